@@ -51,9 +51,18 @@ Theorem C20_code_exposed : forall m,
     exposed_of TDict m = smem (mname m) G_manager.exposed_dict /\
     exposed_of TValue m = smem (mname m) G_manager.exposed_value /\
     exposed_of TIter m = smem (mname m) G_manager.exposed_iter /\
+    exposed_of TAutoList m = smem (mname m) G_manager.exposed_autolist /\
     is_fallback m = smem (mname m) G_manager.fallback_names.
 Proof. exact exposed_tie. Qed.
 Print Assumptions C20_code_exposed.
+
+(* a typeid registered without a proxy type (the way SyncManager registers Queue): the class
+   AutoProxy() builds offers exactly what Server.create exposed (public_methods) on this run *)
+Theorem C20_code_autoproxy_offered :
+  G_manager.proxy_methods_autolist = G_manager.exposed_autolist /\
+  forall m, offered TAutoList m = smem (mname m) G_manager.proxy_methods_autolist.
+Proof. exact autoproxy_offered_tie. Qed.
+Print Assumptions C20_code_autoproxy_offered.
 
 (* ------------------------------------------------ referents live as long as proxies *)
 (* every history of create / new-proxy / release / drop / call events from any number of
